@@ -579,6 +579,22 @@ class Frame:
             self.cells[l] = c
         return c
 
+    def run_drop(self, place):
+        ex = self.ex
+        try:
+            ty = self.place_type(place)
+        except Exception:  # noqa
+            return
+        st = T.type_name_hint(ty or '')[0]
+        cands = [b for (tr, b) in ex.prog.by_method.get((st, 'drop'), []) if tr == 'Drop']
+        if len(cands) != 1:
+            return
+        cell, path, _ = self.lvalue(place)
+        v = ex.read_path(cell, path) if cell.v is not UNINIT else UNINIT
+        if v is UNINIT:
+            return
+        ex.call_body(cands[0], [Ref(cell, path)])
+
     # -- places
     def lvalue(self, place):
         """-> (cell, path, type)"""
@@ -892,6 +908,9 @@ class Frame:
                         raise PathEnd('unreachable', body.name)
                     bb = nxt
                 elif k == 'drop':
+                    # drop glue: a `Drop` impl of the crate on the place's own type runs (RAII guards); library types and
+                    # the fields' own glue have no modelled effect
+                    self.run_drop(t[1])
                     bb = t[2]
                 elif k == 'assert':
                     c = self.operand(t[1])
